@@ -586,6 +586,14 @@ def _run_unit_once(repo_dir: str, unit: dict, tier: str, workdir: str, helpers: 
         if msg.startswith("aborting due to"):
             continue
         spans = d.get("spans", [])
+        # a span inside a macro expansion (`panic!`, `assert!`) points into the macro's definition: walk out to the call site
+        def _callsite(sp):
+            seen = 0
+            while sp.get("expansion") and os.path.basename(sp.get("file_name", "")) != os.path.basename(out_path) and seen < 8:
+                sp = dict(sp["expansion"]["span"], is_primary=sp.get("is_primary"), label=sp.get("label"))
+                seen += 1
+            return sp
+        spans = [_callsite(sp) for sp in spans]
         prim = [s for s in spans if s.get("is_primary")] or spans
         where = []
         for s in spans:
